@@ -123,6 +123,12 @@ class VIter(V):
 
 
 @dataclass
+class VAdj(V):
+    """an adjacency dictionary {vertex: iterable of vertices}"""
+    term: z3.ExprRef
+
+
+@dataclass
 class VMeta(V):
     """a metaclass object (the result of type(cls))"""
     term: z3.ExprRef
